@@ -2,7 +2,7 @@
    (bool, option, unit, list, prod, sumbool, sumor); N, Z, positive, nat stay inductive. *)
 From Coq Require Import Extraction ExtrOcamlBasic.
 From FV Require Import Model.Base Model.Sink Model.Crc Model.Codes Model.Rice Model.Predict
-  Model.Component Model.Encoder Model.Flac Proofs.OpsLen.
+  Model.Component Model.Encoder Model.Flac Model.FailSink Proofs.OpsLen.
 Extraction Language OCaml.
 Set Extraction KeepSingleton.
 Separate Extraction
@@ -13,6 +13,7 @@ Separate Extraction
   Rice.encode_residual Rice.residual_bits Rice.zigzag
   Predict.fixed_errors Predict.lpc_errors Predict.lpc_fits
   OpsLen.ops_len Component.residual_count_bits Component.residual_ops Component.header_ops Component.header_count_bits Component.pack
+  FailSink.expand FailSink.write_failing Component.stream_ops
   Component.stream_bytes Component.frame_bytes Component.stream_count_bits Component.frame_count_bits
   Component.subframe_count_bits Component.subframe_ops Component.precompute
   Flac.decode_stream Flac.strict_ok Flac.frame_lengths Flac.read_magic_and_meta Flac.rd_of
